@@ -160,7 +160,7 @@ var allowedFns = map[string]bool{
 	"(net/textproto.MIMEHeader).Set": true, "(net/textproto.MIMEHeader).Add": true, "(net/textproto.MIMEHeader).Values": true,
 	"(*fmt.wrapError).Unwrap": true, "(*net.OpError).Unwrap": true, "(*io/fs.PathError).Unwrap": true, "(*io/fs.PathError).Error": true, "(*os.SyscallError).Unwrap": true, "(*fmt.wrapError).Error": true, "(*fmt.wrapErrors).Unwrap": true, "(*fmt.wrapErrors).Error": true,
 	"(*net/http.Request).Context": true, "(*net/http.Request).PathValue": true, "(*net/http.Request).SetPathValue": true,
-	"(*net/http.Request).patIndex": true, "(*net/http.Request).UserAgent": true,
+	"(*net/http.Request).patIndex": true, "(*net/http.Request).WithContext": true, "(*net/http.Request).UserAgent": true,
 	"(os.FileMode).IsRegular": true, "(os.FileMode).IsDir": true, "(io/fs.FileMode).IsRegular": true, "(io/fs.FileMode).IsDir": true,
 	"(io/fs.FileMode).Type": true, "(io/fs.FileMode).Perm": true,
 	"(crypto/subtle).ConstantTimeCompare": true, "crypto/subtle.ConstantTimeCompare": true, "crypto/subtle.ConstantTimeByteEq": true,
